@@ -27,6 +27,7 @@ type thread struct {
 	reason string
 	cond   func() bool // blocked until cond() holds
 	wantMutex *smutex  // stopped right before acquiring this mutex
+	vc        vclock
 }
 
 type schan struct {
@@ -38,12 +39,15 @@ type schan struct {
 	ticker    bool
 	ticksLeft int
 	stopped   bool
+	bufVC     []vclock // clocks of the buffered messages
+	closeVC   vclock
 }
 
 type chanCase struct {
 	ch   *schan
 	send bool
 	val  value
+	vc   vclock // sender's clock at the send (race detection)
 }
 
 type pendingOp struct {
@@ -77,6 +81,7 @@ func (p *pathCtx) newThread(name string, daemon bool) *thread {
 // spawn starts body as a new interpreted goroutine; it does not run until scheduled.
 func (p *pathCtx) spawn(name string, daemon bool, body func()) *thread {
 	t := p.newThread(name, daemon)
+	p.raceFork(t)
 	go func() {
 		<-t.resume
 		if p.dead {
@@ -347,10 +352,23 @@ func (p *pathCtx) perform(c chanCase) (value, bool) {
 			panic(targetPanic{"send on closed channel"})
 		}
 		if t, i := p.partner(ch, false); t != nil && len(ch.buf) == 0 {
+			if p.raceOn() {
+				// rendezvous: the blocked receiver learns the sender's clock, and (unbuffered) vice versa
+				mine := vcCopy(p.tvc(p.cur))
+				if ch.cap == 0 {
+					p.cur.vc = vcJoin(p.tvc(p.cur), p.tvc(t))
+				}
+				t.vc = vcJoin(p.tvc(t), mine)
+				p.tick(p.cur)
+			}
 			p.complete(t, i, c.val, true)
 			return nil, false
 		}
 		ch.buf = append(ch.buf, c.val)
+		if p.raceOn() {
+			ch.bufVC = append(ch.bufVC, vcCopy(p.tvc(p.cur)))
+			p.tick(p.cur)
+		}
 		return nil, false
 	}
 	if ch.ticker && len(ch.buf) == 0 && !ch.closed {
@@ -360,18 +378,37 @@ func (p *pathCtx) perform(c chanCase) (value, bool) {
 	if len(ch.buf) > 0 {
 		v := ch.buf[0]
 		ch.buf = append([]value{}, ch.buf[1:]...)
+		if p.raceOn() && len(ch.bufVC) > 0 {
+			p.cur.vc = vcJoin(p.tvc(p.cur), ch.bufVC[0])
+			ch.bufVC = append([]vclock{}, ch.bufVC[1:]...)
+		}
 		if t, i := p.partner(ch, true); t != nil {
 			ch.buf = append(ch.buf, t.pend.cases[i].val)
+			if p.raceOn() {
+				ch.bufVC = append(ch.bufVC, vcCopy(p.tvc(t)))
+				p.tick(t)
+			}
 			p.complete(t, i, nil, false)
 		}
 		return v, true
 	}
 	if t, i := p.partner(ch, true); t != nil {
 		v := t.pend.cases[i].val
+		if p.raceOn() {
+			mine := vcCopy(p.tvc(p.cur))
+			p.cur.vc = vcJoin(p.tvc(p.cur), p.tvc(t))
+			if ch.cap == 0 {
+				t.vc = vcJoin(p.tvc(t), mine)
+			}
+			p.tick(t)
+		}
 		p.complete(t, i, nil, false)
 		return v, true
 	}
 	if ch.closed {
+		if p.raceOn() && ch.closeVC != nil {
+			p.cur.vc = vcJoin(p.tvc(p.cur), ch.closeVC)
+		}
 		return nil, false
 	}
 	panic("perform: case not ready")
@@ -419,10 +456,17 @@ func (p *pathCtx) closeChan(ch *schan) {
 	}
 	p.yieldPoint()
 	ch.closed = true
+	if p.raceOn() {
+		ch.closeVC = vcCopy(p.tvc(p.cur))
+		p.tick(p.cur)
+	}
 	for {
 		t, i := p.partner(ch, false)
 		if t == nil {
 			break
+		}
+		if p.raceOn() {
+			t.vc = vcJoin(p.tvc(t), ch.closeVC)
 		}
 		p.complete(t, i, nil, false)
 	}
@@ -461,6 +505,7 @@ func (p *pathCtx) lock(addr *value) {
 	}
 	m.locked = true
 	m.owner = p.cur
+	p.raceAcquire(m)
 }
 
 func (p *pathCtx) tryLock(addr *value) bool {
@@ -479,6 +524,7 @@ func (p *pathCtx) unlock(addr *value) {
 	if !m.locked {
 		panic(targetPanic{"sync: unlock of unlocked mutex"})
 	}
+	p.raceRelease(m)
 	m.locked = false
 	m.owner = nil
 	for _, t := range m.waiters {
@@ -500,6 +546,9 @@ func (p *pathCtx) wgOf(addr *value) *swg {
 
 func (p *pathCtx) wgAdd(addr *value, d int) {
 	w := p.wgOf(addr)
+	if d < 0 {
+		p.raceRelease(w)
+	}
 	w.n += d
 	if w.n < 0 {
 		panic(targetPanic{"sync: negative WaitGroup counter"})
@@ -521,6 +570,7 @@ func (p *pathCtx) wgWait(addr *value) {
 		w.waiters = append(w.waiters, p.cur)
 		p.blockCurrent("waitgroup")
 	}
+	p.raceAcquire(w)
 }
 
 // zeroOfChanElem returns the zero value for the element type of a channel type.
